@@ -136,8 +136,8 @@ func ruleFLAGSYM1(c *Ctx) {
 		var m uint64
 		ast.Inspect(f.Body(), func(n ast.Node) bool {
 			if call, ok := n.(*ast.CallExpr); ok {
-				if mm, _, v, ok := FlagCall(f.Info(), call); ok && (mm == "Get" || mm == "Has") {
-					m |= v &^ 1
+				if mm, _, v, ok := FlagCall(f.Info(), call); ok && mm == "Get" {
+					m |= v &^ 1 // the value of the option is consulted (Has is only a presence pre-check)
 				}
 			}
 			return true
